@@ -304,6 +304,11 @@ func main() {
 	// every kind of prefix length on both sides of the switch: host ranges (/32), /31, /16, /2 (none covering another)
 	wG := []wop{A("10.1.0.0/16"), A("10.2.0.0/16"), A("203.0.113.9/32"), A("203.0.113.10/31"), R("10.1.0.0/16")}
 	sG := &spec{pre: []string{"192.0.2.1/32", "64.0.0.0/2"}, writers: [][]wop{wG}, readers: [][]string{{"192.0.2.1", "203.0.113.9", "200.1.2.3"}}}
+	// the same range added twice by its owner (Add does not have to deduplicate) and then removed once: it is gone
+	wH := []wop{A("10.2.0.0/16"), A("10.2.0.0/16"), R("10.2.0.0/16")}
+	sH := &spec{writers: [][]wop{wH}, readers: [][]string{{churn, never}}}
+	sH3 := &spec{writers: [][]wop{wH, w2own}, readers: [][]string{{churn}}}
+	sH2 := &spec{pre: []string{"10.2.0.0/16", "10.9.0.0/16"}, writers: [][]wop{{A("10.2.0.0/16"), R("10.2.0.0/16"), A("10.4.0.0/16")}}, readers: [][]string{{churn, "10.9.1.1"}}}
 	P := func(b ...int) sdrive.Plan { return sdrive.Plan{Bounds: b} }
 	PS := func(n int, b ...int) sdrive.Plan { return sdrive.Plan{Bounds: b, Shards: n} }
 	scens := []sdrive.Scenario{
@@ -319,6 +324,12 @@ func main() {
 			Quick: PS(8, 0, 1, 2, 3), Thorough: PS(16, 0, 1, 2, -1), Body: body(sD), MinOutcomes: 2},
 		{Name: "F-absent-removes-after-switch", Props: []string{"C12"}, About: "the filter is already in maps mode (4 ranges with list size 3); a writer removes five ranges nobody added while a reader looks up stable ranges",
 			Quick: P(0, 1, -1), Body: body(sF), MinOutcomes: 1},
+		{Name: "H-duplicate-add+remove", Props: []string{"C12"}, About: "a writer adds the same range twice and removes it once (list mode) while a reader probes it: the range is gone, whichever slot each copy sits in",
+			Quick: P(0, 1, -1), Body: body(sH), MinOutcomes: 2},
+		{Name: "H3-duplicate-add+remove+second-writer", Props: []string{"C12"}, About: "as H, while a second writer adds and removes its own range, so the copies sit in different slots",
+			Quick: PS(8, 0, 1, 2), Thorough: PS(16, 0, 1, 2, 3, -1), Body: body(sH3), MinOutcomes: 2},
+		{Name: "H2-readd-present+remove-across-switch", Props: []string{"C12"}, About: "a range present before is added again, removed once, then the list->maps switch happens; a reader probes it and a stable range",
+			Quick: P(0, 1, -1), Body: body(sH2), MinOutcomes: 2},
 		{Name: "E-either-answer", Props: []string{"C12"}, About: "0.0.0.0/0 added then the specific range removed while a lookup is in flight: both answers are allowed by the statement",
 			Quick: P(0, 1, -1), Body: body(sE), MinOutcomes: 2},
 	}
